@@ -717,7 +717,7 @@ def _mod_inspect(interp, m):
             return f.meta.get("doc")
         if isinstance(f, FuncV):
             return ast.get_docstring(f.node)
-        return interp.getattr(f, "__doc__", n, default=None)
+        return i.getattr(f, "__doc__", n, default=None)
 
     m.ns["getdoc"] = BuiltinV("inspect.getdoc", getdoc)
 
@@ -856,6 +856,12 @@ def value_attr(interp, obj, name, node):
         if isinstance(obj, BuiltinV):
             if name == "__name__":
                 return obj.name.split(".")[-1]
+            if name == "__dict__" and obj.name in TYPE_NAMES:
+                from .interp import OBJECT_ATTRS
+
+                if obj.name == "object":
+                    return DictV({a: BuiltinV("object." + a) for a in OBJECT_ATTRS if a not in ("__dict__", "__weakref__", "__module__")})
+                return DictV()
             if obj.name == "dict" and name == "fromkeys":
                 raise Unsupported("dict.fromkeys", node)
             if obj.name == "object" and name in ("__new__", "__init__", "__setattr__"):
@@ -941,7 +947,7 @@ def obj_builtin_attr(interp, obj, name, node):
     if name in ("__init__", "__init_subclass__") and not obj.cls.ext_bases():
         return BuiltinV("object." + name, lambda i, a, k, n: None)
     if name == "__repr__" or name == "__str__":
-        return BuiltinV("object." + name, lambda i, a, k, n, o=obj: interp.to_str(o))
+        return BuiltinV("object." + name, lambda i, a, k, n, o=obj: i.to_str(o))
     return M
 
 
